@@ -18,7 +18,8 @@
 (*                                                                                       *)
 (* Mode = "edit": few names, every interleaving.  All histories of at most MaxMut        *)
 (* mutations (Put by AppendValue, Store by item assignment - creating or replacing, by a *)
-(* longer or a shorter list -, Delete, Solve) and exactly MaxObs observations (List =    *)
+(* longer or a shorter list -, Delete, Solve - with the horizon stated nowhere / in the   *)
+(* block / on the solver / in both, 0 included -) and exactly MaxObs observations (List = *)
 (* GetSeriesList(), Render), in any order, the last observation being a Render; names in *)
 (* any order; one kind per history; the format class of the j-th render is fixed         *)
 (* (FormatSeq cyclically, "d" replaced when a series is not int-only) so that formats do *)
@@ -52,6 +53,7 @@ MC_Names == Range(PoolOrder)
 MC_Formats == << "g5", "g12", "f", "e", "d" >>
 MC_EditFormats == << "g12", "d", "f", "g5", "e" >>
 MC_Horizon1 == {1}
+MC_Horizons_edit == {0, 2}
 MC_Horizons_quick == {0, 2}
 MC_Horizons_thorough == {0, 1, 3}
 
@@ -79,13 +81,16 @@ PutLens(n, kind) ==
     ELSE IF \A m \in DOMAIN holder : holder[m].len = 1 THEN {1} ELSE {}
 
 GridNext ==
-    \/ /\ phase = "build" /\ NumRenders = 0
+    \/ /\ phase = "build" /\ NumRenders = 0 /\ stated = Unstated
        /\ \E n \in PutNames : \E kind \in PutKinds : \E len \in PutLens(n, kind) : Put(n, len, kind)
     \/ /\ phase = "build" /\ NumRenders = 0
        /\ \A n \in DOMAIN holder : holder[n].kind = "num"
        /\ NumExtends(puts) = 0
-       /\ \E h \in Horizons : Solve({}, h)
+       /\ \A n \in DOMAIN holder : holder[n].len = 1
+       /\ \/ stated = Unstated /\ \E h \in Horizons : StateHorizon("block", h)   \* the block states the horizon
+          \/ stated # Unstated /\ Solve({})
     \/ /\ NumRenders < Len(RequiredRenders)
+       /\ ~(phase = "build" /\ stated # Unstated)          \* a stated horizon is followed by the Solve
        /\ Render(RequiredRenders[NumRenders + 1])
 
 GridTerminal == NumRenders > 0 /\ NumRenders = Len(RequiredRenders)
@@ -98,15 +103,26 @@ RenderFmt(j) ==
     LET f == FormatSeq[((j - 1) % Len(FormatSeq)) + 1]
     IN IF f \in IntOnlyFormats /\ ~AllInt(holder) THEN FormatSeq[1] ELSE f
 
+(* A solve is prepared by stating the horizon nowhere, in the block, on the solver, or in   *)
+(* both (block first); once a horizon is stated the next steps are the rest of that and the  *)
+(* Solve, so that the statements do not interleave with the other calls.                     *)
+CanSolve == /\ phase = "build" /\ NumMut < MaxMut /\ NumObs < MaxObs
+            /\ \A n \in DOMAIN holder : holder[n].kind = "num" /\ holder[n].len = 1
+Configuring == phase = "build" /\ stated # Unstated
+
 EditNext ==
-    \/ /\ NumMut < MaxMut /\ NumObs < MaxObs            \* a mutation nobody looks at afterwards is not explored
+    \/ /\ Configuring
+       /\ \/ ~stated.solver.is /\ \E h \in Horizons : StateHorizon("solver", h)
+          \/ Solve({})
+    \/ /\ ~Configuring /\ CanSolve
+       /\ \/ \E h \in Horizons : StateHorizon("block", h) \/ StateHorizon("solver", h)
+          \/ Solve({})
+    \/ /\ ~Configuring /\ NumMut < MaxMut /\ NumObs < MaxObs      \* a mutation nobody looks at afterwards is not explored
        /\ \/ \E n \in Names : \E kind \in HistKinds : \E len \in 0..MaxLen :
                 Put(n, len, kind) \/ Store(n, len, kind)
           \/ \E n \in DOMAIN holder : Delete(n)
-          \/ /\ \A n \in DOMAIN holder : holder[n].kind = "num"
-             /\ \E h \in Horizons : Solve({}, h)
-    \/ /\ NumObs < MaxObs - 1 /\ List                   \* the last observation is a Render
-    \/ /\ NumObs < MaxObs /\ Render(RenderFmt(NumRenders + 1))
+    \/ /\ ~Configuring /\ NumObs < MaxObs - 1 /\ List             \* the last observation is a Render
+    \/ /\ ~Configuring /\ NumObs < MaxObs /\ Render(RenderFmt(NumRenders + 1))
 
 EditTerminal == NumObs = MaxObs
 
